@@ -9,7 +9,7 @@ THEOREMS = ["PLS.C06_invalid_keeps", "PLS.C06_defs_after_analyze", "PLS.C06_usag
 RULE = ("edit histories over a six-file workspace (root/sub conftest, imported fixture module, two test modules, a "
         "sibling conftest): 13 mutation kinds (add/remove/rename/duplicate fixtures, move text, add/remove usages, "
         "toggle imports, change parameters and scopes, reorder blocks, break and repair syntax, re-send identical "
-        "text). After EVERY step the implementation is compared (all four index maps as multisets, go-to-definition "
+        "text; three steps in ten close the document first and re-open it with the new text). After EVERY step the implementation is compared (all four index maps as multisets, go-to-definition "
         "at every other column of usage-bearing lines, references per definition, available fixtures, scope "
         "mismatches, unused list, undeclared findings of the document changed last) with a freshly built index fed "
         "the latest valid content of each file, and with the model. Non-trivial = history containing a removal, "
@@ -82,6 +82,11 @@ def run(tier, seed):
             cur[p] = nd
             t, _ = nd.render()
             tid = declare(cases, t)
+            if rng.random() < 0.3:
+                # the document is closed and opened again with the next text (its cache entry is
+                # dropped in between): still the same "current contents", so the same answers
+                cases.op("close", p)
+                r.stats["reopen_steps"] = r.stats.get("reopen_steps", 0) + 1
             cases.op("analyze", p, tid)
             if not nd.broken:
                 valid[p] = nd
